@@ -244,8 +244,9 @@ Fixpoint chain_transfers (r : repo) (path_desc : list N) : list trrow :=
   | id :: older => chain_transfers r older ++ match get_block r id with Some (_, b) => block_transfers b | None => [] end
   end.
 
-(* ---- cmd/thor/sync_logdb.go: the startup re-sync (model only: the functions live in package main) ----
-   As of /repo 47028d8 (F8 fixed: the synced case returns best+1 and the sync stops only when the position is past best). *)
+(* ---- cmd/thor/sync_logdb.go: the startup re-sync (package main: tied to the real functions through the test-binary
+   hook cmd/thor/verif_hooks_synclog_test.go, run by the C15 harness) ----
+   As of /repo 47028d8 (F11 fixed: the synced case returns best+1 and the sync stops only when the position is past best). *)
 
 (* LogDB.NewestBlockID: MAX (as blobs) of the block ids of the last transfer row and of the last event row; zero if none *)
 Definition newest_block_id (db : logdb) : N :=
@@ -317,5 +318,76 @@ Definition sync_logdb (r : repo) (db : logdb) : option logdb :=
       | Some d1 => write_range r (r_best r) (N.to_nat (bn + 1 - p')) p' d1
       | None => None
       end
+  | _ => None
+  end.
+
+(* ---- verifyLogDB (the optional --verify-logs pass of syncLogDB) ----
+   Walks the best chain from block 1 to `end`; every 100 blocks it re-reads the rows of the window [num, limit] of both
+   tables (nil criteria, ascending); for each block it splits off the leading rows whose block id is the block's id
+   (nothing if the first row belongs to another block: those rows then stay at the head of the window) and compares them,
+   field by field, with the rows the block's receipts prescribe.  Any mismatch, a missing block or a failing query is an
+   error.  (Events with more than five topics are outside the model: the real convertTopics indexes a [5] array.) *)
+Fixpoint list_eqb {A} (eqb : A -> A -> bool) (a b : list A) : bool :=
+  match a, b with
+  | [], [] => true
+  | x :: a', y :: b' => eqb x y && list_eqb eqb a' b'
+  | _, _ => false
+  end.
+Definition evrow_eqb (x y : evrow) : bool :=
+  (er_seq x =? er_seq y) && (er_block x =? er_block y) && (er_time x =? er_time y) && (er_tx x =? er_tx y)
+  && (er_origin x =? er_origin y) && (er_clause x =? er_clause y) && (er_addr x =? er_addr y)
+  && list_eqb N.eqb (er_topics x) (er_topics y) && (er_dlen x =? er_dlen y) && (er_data x =? er_data y).
+Definition trrow_eqb (x y : trrow) : bool :=
+  (tr_seq x =? tr_seq y) && (tr_block x =? tr_block y) && (tr_time x =? tr_time y) && (tr_tx x =? tr_tx y)
+  && (tr_origin x =? tr_origin y) && (tr_clause x =? tr_clause y) && (tr_sender x =? tr_sender y)
+  && (tr_recipient x =? tr_recipient y) && (tr_amt x =? tr_amt y).
+
+(* splitEvLogs / splitTrLogs: the longest prefix of rows carrying the block id *)
+Fixpoint span_ev (id : N) (l : list evrow) : list evrow * list evrow :=
+  match l with
+  | [] => ([], [])
+  | x :: t => if er_block x =? id then let '(a, b) := span_ev id t in (x :: a, b) else ([], l)
+  end.
+Fixpoint span_tr (id : N) (l : list trrow) : list trrow * list trrow :=
+  match l with
+  | [] => ([], [])
+  | x :: t => if tr_block x =? id then let '(a, b) := span_tr id t in (x :: a, b) else ([], l)
+  end.
+
+Definition log_step : N := 100.
+Definition window (from to : N) : fopts := mkFO (Some (from, to)) None false.
+
+Fixpoint verify_walk (r : repo) (db : logdb) (head : N) (n : nat) (i lim : N) (evs : list evrow) (trs : list trrow) : bool :=
+  match n with
+  | O => true
+  | S n' =>
+    match get_block_id r head i with
+    | Ok id =>
+      match get_block r id with
+      | Some (_, b) =>
+        let refresh := lim <? i in
+        let lim' := if refresh then lim + log_step else lim in
+        match (if refresh then filter_events db [] (window i lim') else Some evs),
+              (if refresh then filter_transfers db [] (window i lim') else Some trs) with
+        | Some evs1, Some trs1 =>
+          let '(e_here, e_rest) := span_ev id evs1 in
+          let '(t_here, t_rest) := span_tr id trs1 in
+          if list_eqb evrow_eqb e_here (block_events b) && list_eqb trrow_eqb t_here (block_transfers b)
+          then verify_walk r db head n' (i + 1) lim' e_rest t_rest
+          else false
+        | _, _ => false
+        end
+      | None => false
+      end
+    | _ => false
+    end
+  end.
+Definition verify_logdb (r : repo) (db : logdb) (end_num : N) : bool :=
+  verify_walk r db (r_best r) (N.to_nat end_num) 1 0 [] [].
+
+(* syncLogDB with its verify argument: the verification of blocks 1 .. position-1 runs first *)
+Definition sync_logdb_v (verify : bool) (r : repo) (db : logdb) : option logdb :=
+  match seek_position r db with
+  | Ok p => if verify && (0 <? p) && negb (verify_logdb r db (p - 1)) then None else sync_logdb r db
   | _ => None
   end.
